@@ -82,7 +82,7 @@ CLAIMS = {
     tech=TECH_A, ref="DESIGN.md 7 C17"),
  "C18": dict(
     text="TLC explores every operation sequence of the explicit TLA+ specification LiquidRuntime up to the stated length from all 9 base maps, checks the declarative scope meaning against the delegation-chain form in every state, and every explored sequence is replayed on the real StackFrame/SandboxedStackFrame/GlobalFrame types with all lookups, roots, counters and register ownership compared after every operation. LiquidFrames refines the same runtime to one action per frame visited (tree of frames, delegation chains), TLC ties every completed chain to LiquidRuntime's declarative answer for all trees up to the frame bound, and the cfg(liquid_verif) hook events recorded during the replayed histories (and, thorough, during the repository's own test suite) are validated against it by Trace_Frames.tla.",
-    note="bounded: length 3 (quick) / 4 exhaustive replay, 5 state-space, 6 reduced alphabet + random walks (thorough); values are scalars and one-key objects; trusted: TLC, the harness's encoding of observations.",
+    note="bounded: length 3 (quick) / 4 exhaustive replay, 5 state-space over the reduced push alphabet, random walks of length 6 (thorough); frame trees of <= 5 frames x 2 names / <= 6 frames x 1 name for LiquidFrames; hook traces of every replayed length-3 history (quick: every k-th); values are scalars and one-key objects; trusted: TLC, the harness's encoding of observations.",
     tech=TECH_AB, ref="DESIGN.md 7 C18"),
  "C20": dict(
     text="LiquidPartials specifies the lazy partial store with threads, a lock and the cache, with check / read-source / compile / insert as separate steps inside the critical section; TLC checks mutual exclusion, at most one compile per name, schedule-independent results, no poisoning, deadlock freedom and (under weak fairness) that every call returns, over all interleavings. Real threads sharing one Parser and its Templates are then recorded (Call / Miss-inside-the-lock / Return events ordered by the recorder's own mutex) and the trace is validated against the specification with TLC: a second miss of a cached name, two threads inside the source, a result that differs from the sequential result, or a call that never returns has no explanation.",
